@@ -86,6 +86,69 @@ CHECKS = {
         "Trusted: path normalisation (reported file made project-relative; quoted paths in messages likewise). Project root is marked by .git inside the project.",
         "DESIGN.md section 3 / C09",
     ),
+    "C02": (
+        'model_checking',
+        'exhaustive product placement-context x literal-spelling x configuration per language on the real CLI against a reference model; allow-add/remove edges',
+        'Every (placement context x literal spelling) snippet in Python, TypeScript, JavaScript and Rust (contexts incl. every documented exempt position) is linted under every allowed_numbers configuration of the menu; the reported multiset (line, value parsed back from the message) is compared with the model; adding/removing a value from allowed_numbers must change exactly the violations of that value; non-literals, two literals on one line, range/enumerate around max_small_integer and test/constants file names are covered.',
+        "Trusted: the snippet generators and the model. allowed_numbers is always explicit (the built-in default's content is not part of the statement). Negative literals are outside the alphabet.",
+        'DESIGN.md section 3 / C02',
+    ),
+    "C03": (
+        'model_checking',
+        'exhaustive enumeration of planted-duplicate projects (k, run length, multiplicity, placement, decoration, min_occurrences) with soundness / mutuality / completeness / count / silence oracles backed by an independent normaliser',
+        'Projects are generated from a pool of ordinary statements with planted duplicate runs; every combination within the bound is linted by the real `dry` command; every named location is compared after independent comment/whitespace normalisation, every planted occurrence must be covered, the occurrence count must match, and projects without a qualifying run must be silent.',
+        "Trusted: the generator's construction record and the independent normaliser (Python tokenize / string-aware scanner for TS/JS). `Covered` is taken in its least demanding form.",
+        'DESIGN.md section 3 / C03',
+    ),
+    "C10": (
+        'model_checking',
+        'all subsets of files / directory / mixed targets x entry points (library, every CLI command) with union and library-vs-CLI oracles',
+        'For generated multi-language trees every non-empty subset of the files, every single file, every sub-directory and mixed file+directory lists are linted through Orchestrator/Linter and through every CLI command; per-file rules must satisfy lint(dir) = U lint(f) and lint(list) = U over the list; Linter.lint and the CLI must agree for files and directories incl. cross-file rules.',
+        'Trusted: the per-file / cross-file classification from the docs (dry, stringly-typed are cross-file). Paths quoted in messages are normalised.',
+        'DESIGN.md section 3 / C10',
+    ),
+    "C11": (
+        'fault_enumeration',
+        'complete single-fault neighbourhoods: all byte strings up to a length, every single mutation at every position of every seed, size faults; timeout + swallowed-failure tap + sibling-invariance oracle',
+        'Every byte string up to the bound in six file types, the complete 1-mutation neighbourhood (truncation, token deletion/duplication, bracket flips, poison sequences at each line start, line-ending/encoding conversions) of one healthy seed per linter and language, size faults (deep nesting, huge lines/expressions) through fresh processes, unknown and empty files; each linted with two healthy siblings. No hang, no escaping exception, no swallowed rule failure, siblings unchanged.',
+        "Trusted: swallowed failures are visible through the orchestrator's logger / stderr. Hangs are detected by timeout only.",
+        'DESIGN.md section 3 / C11',
+    ),
+    "C12": (
+        'model_checking',
+        'generic location bounds on every violation of every documented example x layout values; construct-line ground truth from generated programs x lines-above x scopes x decorated/multi-line headers',
+        'Part A: every violation reported for every catalog example under seven layouts must lie inside the file (line, column) and carry its first quoted name on the reported line. Part B: programs whose construct line is known by construction (function/class/struct headers with decorators, attributes, multi-line signatures; literals in multi-line calls; print/unwrap/clone/blocking calls; duplicate blocks) x 0/1/3 lines above x scopes.',
+        "Trusted: the generators' construct-line bookkeeping; only the first quoted token of a message is required on the line.",
+        'DESIGN.md section 3 / C12',
+    ),
+    "C13": (
+        'model_checking',
+        'edge oracle over the complete position set of every edit kind on every documented example (before/after with line-shift map)',
+        'For every documented violating example of every linter and language, a blank line and a comment line are inserted at every admissible boundary, trailing whitespace is added to every line, the file is re-indented (2, 8, tabs), converted to CRLF, given a BOM, extended by unrelated code, and local identifiers are renamed for name-insensitive rules; the run after each edit must equal the shifted run before it.',
+        'Trusted: the admissible-position analysis (tokenize / string-and-comment scanner) and the header extent for header-sensitive linters.',
+        'DESIGN.md section 3 / C13',
+    ),
+    "C16": (
+        'model_checking',
+        'exhaustive product class-shape x threshold offsets x keyword settings x override blocks per language against a reference model of the documented counting rules',
+        'Generated classes / struct+impl groups with every combination of public, private, dunder, property and static members (within the bound) and three paddings are linted with max_methods and max_loc at -1/0/+1 around the true counts, keyword checking on/off, two impl blocks, three classes per file, nested classes and per-language override blocks of every language; verdict, listed criteria, counts in the message, one violation per class and the header line are compared with the model.',
+        'Trusted: the documented counting rules as implemented in the model (public = no leading underscore; LOC = non-blank non-comment lines). Docstrings, TS constructors/getters are outside the alphabet.',
+        'DESIGN.md section 3 / C16',
+    ),
+    "C17": (
+        'model_checking',
+        'exhaustive product container (sync/async x attribute sets x module nesting x impl) x planted statement x switch settings with expectations by construction',
+        'Rust files generated from an item grammar: every container (12 attribute/async variants x 6 wrappers incl. #[cfg(test)] modules nested two deep) x every planted statement (unwrap/expect variants, clone in each loop kind / chain / let with and without later use / closures, std::fs / thread::sleep / std::net in short and long form, tokio equivalents, spawn_blocking / block_in_place wrappers) x every setting of allow_in_tests, allow_expect and detect_*; the exact multiset of (rule id, line) is compared.',
+        "Trusted: the generator's line bookkeeping and orthogonality of the planted statements. Attribute spellings whose test-ness the statement does not define are signed separately (thorough).",
+        'DESIGN.md section 3 / C17',
+    ),
+    "C19": (
+        'model_checking',
+        'every strongly-labelled documented example x every admissible embedding, run through the real CLI; catalog bound to the docs by verbatim snippet',
+        'Every example of docs/*-linter.md that the text labels violating or acceptable/refactored (about 400, transcribed verbatim with file and line) is linted as-is, with filler code before/after and, for the pattern linters, inside a function, a method, an if block, two scopes deep and two/three times with renamed copies; violating examples must be reported by their linter inside every occurrence, acceptable ones must not be reported.',
+        'Trusted: the transcription and labelling of the catalog (agent-built from the docs, weak/hedged labels filtered, ten self-contradictory examples excluded with reasons in mc/checks/c19.py).',
+        'DESIGN.md section 3 / C19',
+    ),
 }
 
 NOT_APPLICABLE: dict[str, str] = {}
